@@ -10,7 +10,7 @@ if os.path.exists("/tmp/seed/results.txt"):
     for l in open("/tmp/seed/results.txt"):
         m = re.match(r"/tmp/seed/(C\d+)/out/(\d) :: (.*?) :: (\d+) violations ::\s*(.*)", l.strip())
         if m:
-            results["%s-%s" % (m.group(1), m.group(2))] = {"runs": m.group(3).strip(), "violations": int(m.group(4)), "signatures": m.group(5).split()}
+            results["%s-%s" % (m.group(1), m.group(2))] = {"runs": m.group(3).strip(), "violations": int(m.group(4)), "signatures": [x.strip() for x in (m.group(5).split("|") if "|" in m.group(5) else m.group(5).split()) if x.strip()]}
 head = subprocess.run(["git", "-C", "/repo", "rev-parse", "--short", "HEAD"], capture_output=True, text=True).stdout.strip()
 for pid in sorted(os.listdir("/tmp/seed")):
     if not re.match(r"C\d+$", pid):
